@@ -59,7 +59,7 @@ class Ev:
 
 
 class PathState:
-    __slots__ = ('env', 'shape', 'conds', 'events', 'weak', 'alias')
+    __slots__ = ('env', 'shape', 'conds', 'events', 'weak', 'alias', 'expr')
 
     def __init__(self):
         self.env = {}
@@ -68,6 +68,7 @@ class PathState:
         self.events = []
         self.weak = 0
         self.alias = {}     # local name -> field whose container (or element container) it IS
+        self.expr = {}      # local name -> AST of its (pure, call-free) defining expression: temporaries in tests
 
     def copy(self):
         p = PathState()
@@ -77,6 +78,7 @@ class PathState:
         p.events = list(self.events)
         p.weak = self.weak
         p.alias = dict(self.alias)
+        p.expr = dict(self.expr)
         return p
 
 
@@ -175,6 +177,28 @@ class Interp:
         if self.cls is None:
             return None
         return self.cls.find(name)
+
+    _reads_cache = {}
+
+    def callee_field_reads(self, name, depth=0):
+        """'field:f' for every field read by self.<name> (transitively through self-calls): what a helper's result may
+        be derived from"""
+        callee = self.resolve_self_method(name)
+        if callee is None or depth > 3:
+            return frozenset()
+        key = (callee.fq, self.cls.fq if self.cls else None)
+        if key in Interp._reads_cache:
+            return Interp._reads_cache[key]
+        Interp._reads_cache[key] = frozenset()
+        out = set()
+        for x in ast.walk(callee.node):
+            if isinstance(x, ast.Attribute) and isinstance(x.value, ast.Name) and x.value.id == 'self' and isinstance(x.ctx, ast.Load):
+                if self.cls is not None and self.cls.find(x.attr) is None:
+                    out.add('field:' + x.attr)
+                elif depth < 3 and x.attr != name:
+                    out |= set(self.callee_field_reads(x.attr, depth + 1))
+        Interp._reads_cache[key] = frozenset(out)
+        return Interp._reads_cache[key]
 
     def is_user_callable_field(self, name):
         """self.<name> is not a method of the class => a stored callable / attribute"""
@@ -328,6 +352,13 @@ class Interp:
                 out |= self.tags(st, k.value)
             if isinstance(fn, ast.Attribute) and name in ('_emit', 'emit'):
                 out |= frozenset({'emit@%d' % n.lineno})
+            if isinstance(fn, ast.Attribute) and name in DEFER:
+                out |= frozenset({'defer@%d' % n.lineno})
+            if isinstance(fn, ast.Attribute) and name in ('put', 'put_nowait') and self_field(fn.value) is not None:
+                out |= frozenset({'put:%s@%d' % (self_field(fn.value), n.lineno)})
+            if isinstance(fn, ast.Attribute) and isinstance(fn.value, ast.Name) and fn.value.id == 'self' \
+                    and self.resolve_self_method(name) is not None:
+                out |= self.callee_field_reads(name)
             if isinstance(fn, ast.Attribute) and name in MUT_TAKE and name != 'clear' \
                     and not (name in ('get', 'get_nowait') and n.args):
                 fld = self_field(fn.value)
@@ -545,9 +576,12 @@ class Interp:
     # ------------------------------------------------------------------ assignment
     def forget(self, st, ident):
         """drop remembered conditions that mention a written name/field"""
+        pat = re.compile(r'(?<![\w.])' + re.escape(ident) + r'(?![\w])')
+        if st.expr:
+            for k in [k for k, v in st.expr.items() if pat.search(src(v))]:
+                del st.expr[k]
         if not st.conds:
             return
-        pat = re.compile(r'(?<![\w.])' + re.escape(ident) + r'(?![\w])')
         st.conds = [c for c in st.conds if not pat.search(c[0])]
 
     def assign(self, st, target, vtags, line, vnode=None, vshape=None):
@@ -556,10 +590,19 @@ class Interp:
                     and self.is_user_callable_field(vnode.attr) and not isinstance(vtags, type(None)):
                 vtags = frozenset(vtags) | frozenset({'ufield:' + vnode.attr})
             al = direct_field_alias(vnode) if vnode is not None else None
+            if al is None and isinstance(vnode, ast.Name) and vnode.id in st.alias:
+                al = st.alias[vnode.id]          # alias of an alias
             if al is not None:
                 st.alias[target.id] = al
             else:
                 st.alias.pop(target.id, None)
+            if vnode is not None and not any(isinstance(x, (ast.Call, ast.Await, ast.Yield, ast.YieldFrom, ast.Lambda,
+                                                              ast.ListComp, ast.GeneratorExp, ast.DictComp, ast.SetComp))
+                                             for x in ast.walk(vnode)) and not isinstance(vnode, (ast.List, ast.Dict, ast.Tuple, ast.Set)) \
+                    and not any(isinstance(x, ast.Name) and x.id == target.id for x in ast.walk(vnode)):
+                st.expr[target.id] = vnode
+            else:
+                st.expr.pop(target.id, None)
             if st.weak:
                 st.env[target.id] = st.env.get(target.id, frozenset()) | vtags
                 st.shape[target.id] = join_shape(st.shape.get(target.id), vshape if vshape is not None else OTHER)
@@ -593,6 +636,16 @@ class Interp:
                     kind = 'assign'
                     key = None
                 empty = vnode is not None and is_empty_literal(vnode)
+                if empty and not any(x.kind == 'TK' and x.a == f and x.c == 'swap' and x.line == line for x in st.events[-6:]):
+                    # sequential swap:  L = self.f ; self.f = []   (the local keeps the old content = it was taken out)
+                    holders = [nm for nm, tg in st.env.items() if not nm.startswith('self.') and ('field:' + f) in tg
+                               and not any(t.startswith('take:' + f + '@') for t in tg)]
+                    if holders:
+                        self.add(st, Ev('TK', line, f, None, 'swap', {'node': target, 'sub': isinstance(target, ast.Subscript),
+                                                                      'sequential': True}))
+                        for nm in holders:
+                            st.env[nm] = st.env[nm] | frozenset({'take:%s@%d' % (f, line)})
+                            st.alias.pop(nm, None)
                 if kind == 'assign':
                     st.env['self.' + f] = frozenset(t for t in vtags if t.startswith(('emit@', 'take:')))
                     if empty or vshape is None:
@@ -683,7 +736,25 @@ class Interp:
             else:
                 yield s1, status
 
-    def cond_key(self, test):
+    def subst_pure(self, st, test, depth=0):
+        """replace locals bound to a pure, call-free expression by that expression (temporaries in tests)"""
+        if st is None or not st.expr or depth > 3:
+            return test
+        names = {n.id for n in ast.walk(test) if isinstance(n, ast.Name) and n.id in st.expr}
+        if not names:
+            return test
+        import copy as _copy
+
+        class T(ast.NodeTransformer):
+            def visit_Name(self_, n):
+                if isinstance(n.ctx, ast.Load) and n.id in st.expr:
+                    return _copy.deepcopy(st.expr[n.id])
+                return n
+        out = T().visit(_copy.deepcopy(test))
+        return self.subst_pure(st, out, depth + 1)
+
+    def cond_key(self, test, st=None):
+        test = self.subst_pure(st, test)
         neg = False
         while isinstance(test, ast.UnaryOp) and isinstance(test.op, ast.Not):
             test = test.operand
@@ -698,7 +769,7 @@ class Interp:
         return src(test), neg
 
     def known(self, st, test):
-        key, neg = self.cond_key(test)
+        key, neg = self.cond_key(test, st)
         for (c, o) in reversed(st.conds):
             if c == key:
                 return (not o) if neg else o
@@ -735,16 +806,31 @@ class Interp:
             return None
         return (not val) if neg else val
 
+    def tested_value_tags(self, st, test):
+        """tags of the value whose truthiness is tested (bare name / attribute / subscript / len(..))"""
+        node = test
+        while isinstance(node, ast.UnaryOp) and isinstance(node.op, ast.Not):
+            node = node.operand
+        if isinstance(node, ast.Call) and isinstance(node.func, ast.Name) and node.func.id == 'len' and node.args:
+            node = node.args[0]
+        if isinstance(node, (ast.Name, ast.Attribute, ast.Subscript)):
+            return self.tags(st, node)
+        return frozenset()
+
     def record(self, st, test, outcome):
-        key, neg = self.cond_key(test)
+        key, neg = self.cond_key(test, st)
         st.conds.append((key, (not outcome) if neg else outcome))
-        self.add(st, Ev('COND', test.lineno, key, (not outcome) if neg else outcome, None, {'node': test}))
-        if isinstance(test, ast.BoolOp) and ((isinstance(test.op, ast.And) and outcome)
-                                             or (isinstance(test.op, ast.Or) and not outcome)):
-            for v in test.values:
-                k2, n2 = self.cond_key(v)
+        subst = self.subst_pure(st, test)
+        self.add(st, Ev('COND', test.lineno, key, (not outcome) if neg else outcome, None,
+                        {'node': subst, 'orig': test, 'tags': self.tested_value_tags(st, test)}))
+        test_s = subst
+        if isinstance(test_s, ast.BoolOp) and ((isinstance(test_s.op, ast.And) and outcome)
+                                               or (isinstance(test_s.op, ast.Or) and not outcome)):
+            for v in test_s.values:
+                k2, n2 = self.cond_key(v, None)
                 st.conds.append((k2, (not outcome) if n2 else outcome))
-                self.add(st, Ev('COND', test.lineno, k2, (not outcome) if n2 else outcome, 'conjunct', {'node': v}))
+                self.add(st, Ev('COND', test.lineno, k2, (not outcome) if n2 else outcome, 'conjunct',
+                                {'node': v, 'tags': self.tested_value_tags(st, v)}))
         # refine shapes from isinstance(v, list)
         core = test
         o = outcome
@@ -779,9 +865,23 @@ class Interp:
         if isinstance(v, (ast.Await, ast.Yield, ast.YieldFrom)) and v.value is not None:
             awaited = True
             v = v.value
-        if not isinstance(v, ast.Call) or not isinstance(v.func, ast.Attribute):
+        if not isinstance(v, ast.Call):
             return None
         if not self.inline or len(self.stack) > self.depth:
+            return None
+        if isinstance(v.func, ast.Name):
+            # a private module-level helper of the package (extracted code):  _flatten_metadata(x), _keep_alive(self)
+            if not v.func.id.startswith('_') or v.func.id.startswith('__'):
+                return None
+            target = self.model.resolve_name(self.module, v.func)
+            if not isinstance(target, Func) or target.owner is not None or target.parent is not None:
+                return None
+            if target.fq in self.stack or (target.is_coro and not awaited):
+                return None
+            v2 = ast.copy_location(ast.Call(func=v.func, args=v.args, keywords=v.keywords), v)
+            v2._param_offset = 0
+            return v2, target, awaited
+        if not isinstance(v.func, ast.Attribute):
             return None
         f = v.func
         name = f.attr
@@ -805,12 +905,16 @@ class Interp:
                 callee = self.cls.find_after(owner, name)
         if callee is None or callee.fq in self.stack:
             return None
-        if any(src(d) in ('property', 'staticmethod', 'classmethod') for d in callee.node.decorator_list):
+        if any(src(d) in ('property', 'classmethod') for d in callee.node.decorator_list):
             return None
+        is_static = any(src(d) == 'staticmethod' for d in callee.node.decorator_list)
         if callee.is_coro and not awaited:
             return None        # a coroutine called but not awaited here: stays a SELFCALL (escape)
         if explicit_self:
             v = ast.copy_location(ast.Call(func=v.func, args=v.args[1:], keywords=v.keywords), v)
+        if is_static:
+            v = ast.copy_location(ast.Call(func=v.func, args=v.args, keywords=v.keywords), v)
+            v._param_offset = 0
         return v, callee, awaited
 
     def splice(self, st, call, callee, awaited, cont):
@@ -821,7 +925,7 @@ class Interp:
             self.ev_expr(s, a.value if isinstance(a, ast.Starred) else a)
         for k in call.keywords:
             self.ev_expr(s, k.value)
-        params = callee.params()[1:]
+        params = callee.params()[getattr(call, '_param_offset', 1):]
         ptags, pshapes = {}, {}
         for p, a in zip(params, call.args):
             ptags[p] = self.tags(s, a)
@@ -901,6 +1005,25 @@ class Interp:
             s = st.copy()
             self.ev_expr(s, value)
             self.do_assign(s, n, value, targets)
+            yield s, 'next'
+        elif isinstance(n, ast.AugAssign) and isinstance(n.target, ast.Name) and isinstance(n.op, ast.Add) \
+                and (n.target.id in st.alias or st.shape.get(n.target.id) in (FLAT, NESTED)):
+            # in-place extension of a list:  alias += v  (store into the aliased field)  /  local_list += v
+            s = st.copy()
+            self.ev_expr(s, n.value)
+            vt = self.tags(s, n.value)
+            vs = self.shape(s, n.value)
+            nm = n.target.id
+            if nm in s.alias:
+                self.forget(s, nm)
+                self.add(s, Ev('ST', n.lineno, s.alias[nm], vt, 'extend',
+                               {'node': n, 'alias': nm, 'sub': True, 'vshape': vs, 'value': n.value}))
+            else:
+                self.forget(s, nm)
+                if vs == NESTED:
+                    s.shape[nm] = NESTED
+                self.add(s, Ev('LADD', n.lineno, nm, vt, 'extend', {'node': n, 'vshape': vs}))
+            s.env[nm] = s.env.get(nm, frozenset()) | vt
             yield s, 'next'
         elif isinstance(n, ast.AugAssign):
             s = st.copy()
@@ -1014,7 +1137,7 @@ class Interp:
             e = s.copy()
             self.add(e, Ev('LOOPEXIT', n.lineno, i, None, 'cond', {'node': n}))
             if is_while:
-                key, neg = self.cond_key(n.test)
+                key, neg = self.cond_key(n.test, e)
                 e.conds.append((key, neg))
             yield from self.block(n.orelse, e)
         if i >= self.K:
